@@ -83,7 +83,21 @@ func genC06(r *hysim.Rand, tier string) *hysim.Script {
 			plan, arg, r.Pick64(0, 0, 100, 5000), dialFail, int64(r.Intn(2)),
 		}})
 	}
-	if stratum == 2 {
+	if stratum == 2 && r.Chance(1, 3) {
+		// veto racing with the end of the opposite direction: the target closes (or the client
+		// closes) while the other side's chunk is being accounted
+		sc.Cfg["veto_at"] = int64(r.Pick(1, 1, 2, 3))
+		sc.Cfg["fastopen"] = int64(r.Pick(1, 1, 1, 0))
+		for i := range sc.Ops {
+			if sc.Ops[i].K == "conn" {
+				sc.Ops[i].A[5] = int64(r.Pick(planTargetEarly, planTargetEarly, planClientEarly, planTargetCloses))
+				sc.Ops[i].A[6] = r.Pick64(0, 0, 1, 100, 5000)
+				sc.Ops[i].A[1] = r.Pick64(1, 2000, 32768, 70000)
+				sc.Ops[i].A[2] = r.Pick64(0, 1, 2000, 32768)
+				sc.Ops[i].A[8] = 0
+			}
+		}
+	} else if stratum == 2 {
 		switch r.Intn(3) {
 		case 0:
 			sc.Cfg["veto_at"] = int64(r.Range(1, 12))
